@@ -58,6 +58,8 @@ def job_neutral(name):
 def main():
     update = "--update" in sys.argv
     names = sorted(p.name for p in (VERIF / "seeded").iterdir() if (p / "meta.json").is_file())
+    if "--neutral-only" in sys.argv:
+        names = []
     base = {pid: findings(pid, REPO) for pid in PIDS}
     with ProcessPoolExecutor(max_workers=16) as ex:
         results = list(ex.map(job, names))
